@@ -91,9 +91,13 @@ type scenario struct {
 	name    string
 	callers [][]string // per caller: ops A (append), D (decline), F (fail, no retry), R (fail with retry once, then append)
 	prepop  bool       // key exists before the callers start
+	retries int        // CAS retry budget of the backend (0 = its default, 10)
 }
 
 func (s scenario) String() string {
+	if s.retries > 0 {
+		return fmt.Sprintf("%s/%s/%s%v prepop=%v retries=%d", s.backend, s.wrapper, s.name, s.callers, s.prepop, s.retries)
+	}
 	return fmt.Sprintf("%s/%s/%s%v prepop=%v", s.backend, s.wrapper, s.name, s.callers, s.prepop)
 }
 
@@ -117,10 +121,15 @@ func buildBackend(sc scenario) (kv.Client, kv.Client, func()) {
 	mk := func() kv.Client {
 		switch sc.backend {
 		case "consul":
-			c, cl := consul.NewInMemoryClientWithConfig(valCodec{}, consul.Config{MaxCasRetries: 10}, log.NewNopLogger(), nil)
+			c, cl := consul.NewInMemoryClientWithConfig(valCodec{}, consul.Config{MaxCasRetries: max(sc.retries, 0)}, log.NewNopLogger(), nil)
 			closers = append(closers, func() { _ = cl.Close() })
 			return c
 		case "etcd":
+			if sc.retries > 0 {
+				c, cl := etcd.VerifNewInMemoryClientWithRetries(valCodec{}, log.NewNopLogger(), sc.retries)
+				closers = append(closers, func() { _ = cl.Close() })
+				return c
+			}
 			c, cl := etcd.NewInMemoryClient(valCodec{}, log.NewNopLogger())
 			closers = append(closers, func() { _ = cl.(io.Closer).Close() })
 			return c
@@ -129,6 +138,9 @@ func buildBackend(sc scenario) (kv.Client, kv.Client, func()) {
 			m, err := memberlist.VerifNewDetachedKV(cfg, log.NewNopLogger(), func() int { return 1 })
 			if err != nil {
 				panic(err)
+			}
+			if sc.retries > 0 {
+				m.VerifSetMaxCasRetries(sc.retries)
 			}
 			c, err := memberlist.NewClient(m, valCodec{})
 			if err != nil {
@@ -372,6 +384,11 @@ func scenarios() []scenario {
 			out = append(out, scenario{backend: b, wrapper: "bare", name: s.name, callers: s.callers})
 			out = append(out, scenario{backend: b, wrapper: "bare", name: s.name, callers: s.callers, prepop: true})
 		}
+		// small retry budgets: a call that loses every attempt to a competitor must report failure (and write nothing)
+		out = append(out, scenario{backend: b, wrapper: "bare", name: "2x1", callers: sets[0].callers, prepop: true, retries: 1})
+		out = append(out, scenario{backend: b, wrapper: "bare", name: "3x1", callers: [][]string{{"A"}, {"A"}, {"A"}}, prepop: true, retries: 2})
+		out = append(out, scenario{backend: b, wrapper: "bare", name: "3x1", callers: [][]string{{"A"}, {"A"}, {"A"}}, retries: 2})
+		out = append(out, scenario{backend: b, wrapper: "multi", name: "2x1", callers: sets[0].callers, prepop: true, retries: 1})
 		for _, w := range []string{"prefix", "metrics", "multi"} {
 			out = append(out, scenario{backend: b, wrapper: w, name: "2x1", callers: sets[0].callers})
 			out = append(out, scenario{backend: b, wrapper: w, name: "mixed", callers: sets[2].callers, prepop: true})
@@ -390,7 +407,7 @@ func TestC07(t *testing.T) {
 		fmt.Sscan(b, &bound)
 	}
 	scs := scenarios()
-	rep.Bound = fmt.Sprintf("%d scenarios: backends {in-memory Consul-compatible store, etcd client over its in-process mock, gossip store on one detached node} × caller sets {2×1, 2×2, mixed append/decline/fail, fail-with-retry} 3×1 and 2×3 on an absent and on a pre-populated key, bare and behind the prefix, metrics and multi(mirroring) wrappers; all schedules with <= %d preemptions over every mutex/atomic operation of the store implementations", len(scs), bound)
+	rep.Bound = fmt.Sprintf("%d scenarios: backends {in-memory Consul-compatible store, etcd client over its in-process mock, gossip store on one detached node} × caller sets {2×1, 2×2, mixed append/decline/fail, fail-with-retry} 3×1 and 2×3 on an absent and on a pre-populated key, also with CAS retry budgets 1 and 2 (so that losing every attempt is within the preemption bound), bare and behind the prefix, metrics and multi(mirroring) wrappers; all schedules with <= %d preemptions over every mutex/atomic operation of the store implementations", len(scs), bound)
 	rep.Rule = "stateless DFS on the real clients; oracle: the final value holds exactly the tags of the calls that reported success (no lost, no phantom update), failing and declining calls change nothing, the committing invocations form a chain (each applied to the value left by the previous one; for the gossip store on an absent key — where first writes are merged by design — set equality is required instead), the mirror holds a value some successful call wrote; distinct_nontrivial = distinct (scenario, final value, per-call outcome, number of function invocations)"
 	deadline := ev.Deadline(8 * time.Minute)
 	for _, sc := range scs {
